@@ -32,19 +32,26 @@ res['demo_cmd'] = demo_cmd
 res['confirmed'] = dict(demo_without_patch_exit=rc0, demo_with_patch_exit=rc1, build_exit=rcb, ctest=passed[0].strip() if passed else ot[-300:])
 ok = rc0 == 0 and rc1 != 0 and rcb == 0 and passed and passed[0].startswith('100%')
 print('confirmed' if ok else 'NOT CONFIRMED', res['confirmed'])
-# run the checks against the patched /repo
+# run the checks against the patched tree: /repo itself (apply, check, git checkout -- .), or - with SEED_SCRATCH=1, used while a long
+# run is reading /repo - a scratch worktree of /repo's HEAD that the runner is pointed at through VERIF_REPO
 res['checks'] = {}
-rc, o = sh('git -C /repo apply %s' % patch)
-if rc != 0: print('patch does not apply to /repo', o); sys.exit(2)
+scratch = os.environ.get('SEED_SCRATCH') == '1'
+target = '/tmp/seedrepo' if scratch else '/repo'
+if scratch:
+    sh('git -C /repo worktree remove --force /tmp/seedrepo; git -C /repo worktree prune; git -C /repo worktree add --detach /tmp/seedrepo HEAD -q')
+rc, o = sh('git -C %s apply %s' % (target, patch))
+if rc != 0: print('patch does not apply to', target, o); sys.exit(2)
+res['checked_against'] = 'scratch worktree of /repo HEAD with the patch applied (VERIF_REPO)' if scratch else '/repo working tree with the patch applied, restored afterwards'
 try:
     for c in checks:
         t0 = time.time()
-        rc, o = sh('./check %s --no-evidence %s' % (c, ("--only '%s'" % only) if only else ''), cwd='/verif')
+        rc, o = sh('%s./check %s --no-evidence %s' % ('VERIF_REPO=/tmp/seedrepo ' if scratch else '', c, ("--only '%s'" % only) if only else ''), cwd='/verif')
         viol = [l for l in o.split('\n') if l.startswith('VIOLATION')]
         res['checks'][c] = dict(exit=rc, violations=len(viol), first=viol[0][:400] if viol else None, seconds=round(time.time() - t0), tail=o.strip().split('\n')[-1][:300])
         print(c, 'exit', rc, len(viol), 'violations', viol[0][:300] if viol else o.strip().split('\n')[-1][:300])
 finally:
-    sh('git -C /repo checkout -- .')
+    if scratch: sh('git -C /repo worktree remove --force /tmp/seedrepo; git -C /repo worktree prune')
+    else: sh('git -C /repo checkout -- .')
 res['detected_by'] = [c for c, v in res['checks'].items() if v['exit'] == 1 and v['violations'] > 0]
 shutil.copy(patch, out); shutil.copy(os.path.join(src, 'demo.cpp'), out)
 json.dump(res, open(os.path.join(out, 'meta.json'), 'w'), indent=1)
